@@ -139,7 +139,18 @@ def split_record(parts):
 
 def _partial_result(callee):
     """helpers that report failure by a boolean constant (the interval merge) are models of their own, not inlined"""
-    return any(isinstance(r, ast.Return) and isinstance(r.value, ast.Constant) and isinstance(r.value.value, bool) for r in ast.walk(callee.node))
+    return is_cigar_reverser(callee) or any(isinstance(r, ast.Return) and isinstance(r.value, ast.Constant) and isinstance(r.value.value, bool) for r in ast.walk(callee.node))
+
+
+def is_cigar_reverser(callee):
+    """The helper that reverses a CIGAR string, by role: one parameter that is cut into runs (groupby / findall / split)
+    which are put together back to front.  It is a model of its own (C01 declares its arithmetic not decided)."""
+    if len(callee.params) != 1:
+        return False
+    src = norm(callee.node)
+    p0 = callee.params[0]
+    cuts = any(isinstance(c, ast.Call) and norm(c.func).split(".")[-1] in ("groupby", "findall", "finditer", "split") and any(norm(a) == p0 for a in c.args) for c in ast.walk(callee.node))
+    return cuts and ("[::-1]" in src or "reversed(" in src or ", -2)" in src or ", -1)" in src)
 
 
 def candidate_template(n):
